@@ -196,6 +196,30 @@ def c05_tokens4(toks: Tuple[int, int, int, int], gaps: int) -> bool:
     return _run_text("c05_tokens4", raw, text, True)
 
 
+# redundant parentheses around a base expression, inside a context
+WRAP_PREFIX = ["", "a ", "a|"]
+WRAP_SUFFIX = ["", "*", " b", "|b"]
+TOK_W = ["a", "b", "|", "*", "(", ")"]
+
+
+def c05_wrapped(toks: Tuple[int, int, int], n: int, depth: int, prefix: int, suffix: int) -> bool:
+    """
+    pre: 1 <= n <= 3 and 1 <= depth <= 3 and 0 <= prefix < 3 and 0 <= suffix < 4
+    pre: all(0 <= toks[i] < 6 and (i < n or toks[i] == 0) for i in range(3))
+    pre: pinned(n=n, depth=depth, prefix=prefix, suffix=suffix, t0=toks[0])
+    post: _
+    """
+    raw = (toks, n, depth, prefix, suffix)
+    base = make_text(TOK_W, toks, n, 3)
+    d = enc.pick(depth, 4)
+    text = WRAP_PREFIX[enc.pick(prefix, 3)] + "(" * d + base + ")" * d + WRAP_SUFFIX[enc.pick(suffix, 4)]
+    with chx.NT():
+        wf = RX.classify(base)[0] == "wf"
+    if not wf:
+        return chx.assumed_away("c05_wrapped")      # ill-formed bases are c05_tokens' business
+    return _run_text("c05_wrapped", raw, text, True)
+
+
 # ----------------------------------------------------------------------------------------
 # combinators
 
@@ -207,7 +231,9 @@ def _comb_oracle(args, obs):
     r1, r2 = RX.to_ref(c1[1]), RX.to_ref(c2[1])
     fails = []
     wants = {"union": O.union(r1, r2), "or": O.union(r1, r2), "concatenate": O.concat(r1, r2),
-             "add": O.concat(r1, r2), "kleene_star": O.star(r1)}
+             "add": O.concat(r1, r2), "kleene_star": O.star(r1),
+             "concat_star": O.star(O.concat(r1, r2)), "star_concat": O.concat(O.star(r1), r2),
+             "union_star": O.star(O.union(r1, r2)), "concat_union": O.union(O.concat(r1, r2), r1)}
     for op, res in obs.items():
         if res[0] == "exc":
             fails.append(chx.exc_failure(op, res, texts=[t1, t2]))
@@ -238,7 +264,11 @@ def c05_combinators(ta: Tuple[int, int, int], na: int, tb: Tuple[int, int, int],
     r1, r2 = b1[1], b2[1]
     obs = {}
     ops = [("union", lambda: r1.union(r2)), ("concatenate", lambda: r1.concatenate(r2)),
-           ("kleene_star", lambda: r1.kleene_star())]
+           ("kleene_star", lambda: r1.kleene_star()),
+           ("concat_star", lambda: r1.concatenate(r2).kleene_star()),
+           ("star_concat", lambda: r1.kleene_star().concatenate(r2)),
+           ("union_star", lambda: r1.union(r2).kleene_star()),
+           ("concat_union", lambda: r1.concatenate(r2).union(r1))]
     if chx.thorough():
         ops += [("or", lambda: r1 | r2), ("add", lambda: r1 + r2)]
     for op, fn in ops:
@@ -265,9 +295,15 @@ def _sh_tok4(tier):
     return product_pins(t0=list(range(8)), t1=list(range(8)), gaps=[0, 7, 2, 5])
 
 
+def _sh_wrapped(tier):
+    if tier == "quick":
+        return product_pins(n=[1, 2, 3], depth=[2, 3], prefix=[0, 1], suffix=[0, 1])
+    return product_pins(n=[1, 2, 3], depth=[1, 2, 3], prefix=[0, 1, 2], suffix=[0, 1, 2, 3])
+
+
 def _sh_comb(tier):
     if tier == "quick":
-        return product_pins(na=[1, 3], nb=[1, 3], a0=[0, 4], b0=[0, 1])
+        return product_pins(na=[1, 3], nb=[1, 3], a0=[0, 4], b0=[1])
     return product_pins(na=[1, 2, 3], nb=[1, 2, 3], a0=[0, 1, 4], b0=[0, 1, 4])
 
 
@@ -292,9 +328,15 @@ CONDS = [
          {"quick": "4 tokens from {a,b,|,*,(,),.,$}, first token in {a,|,(,.}, second in 5 values, no spaces",
           "thorough": "all 8^4 token strings x 4 spacing patterns"},
          FUNCS, RULE),
+    Cond("C05", c05_wrapped, _sh_wrapped,
+         {"quick": "a well-formed base of 1-3 tokens from {a,b,|,*,(,)} wrapped in 2-3 levels of redundant "
+                   "parentheses, alone or after 'a ', optionally followed by '*'",
+          "thorough": "1-3 levels, prefixes {'', 'a ', 'a|'}, suffixes {'', '*', ' b', '|b'}"},
+         FUNCS, RULE),
     Cond("C05", c05_combinators, _sh_comb,
          {"quick": "pairs of well-formed regexes of 1 or 3 tokens from {a,b,|,*,(,),.,$}: union, concatenate, "
-                   "kleene_star, each judged in all representations",
+                   "kleene_star and the composites (r1 r2)*, r1* r2, (r1|r2)*, r1 r2|r1, each judged in all "
+                   "representations (automaton, accepts, to_cfg, str round trip)",
           "thorough": "1-3 tokens each; also | and + operators"},
          FUNCS, RULE),
 ]
